@@ -112,6 +112,64 @@ func init() {
 			e["calls"] = calls
 			c.emit(e)
 		}
+		// (1b) sizes: parts of 4 095 .. 10 007 vertices through every kind that holds a long part - every vertex projected,
+		// once, in order (compared here vertex by vertex; TLC checks the verdict and the number of calls)
+		for _, n := range []int{4095, 4096, 4097, 4098, 4099, 5001, 8193, 10007} {
+			for kind := 0; kind < 5; kind++ {
+				pts := make([]orb.Point, n)
+				for j := range pts {
+					pts[j] = orb.Point{float64(j % 97), float64(j / 97)}
+				}
+				var g orb.Geometry
+				switch kind {
+				case 0:
+					g = orb.MultiPoint(pts)
+				case 1:
+					g = orb.LineString(pts)
+				case 2:
+					g = orb.Ring(pts)
+				case 3:
+					g = orb.Polygon{orb.Ring(pts[:n/2]), orb.Ring(pts[n/2:])}
+				default:
+					g = orb.Collection{orb.MultiLineString{orb.LineString(pts)}, orb.Point{1, 1}}
+				}
+				want := n
+				if kind == 4 {
+					want = n + 1
+				}
+				e := map[string]interface{}{"k": "mapbig", "n": want, "kind": kind, "nt": 1}
+				calls := 0
+				f := func(p orb.Point) orb.Point {
+					calls++
+					return orb.Point{p[0] + 1000, float64(calls)}
+				}
+				setCurrent("project.Geometry(big)", e)
+				ok := 1
+				site := guard(func() {
+					in := flatPoints(orb.Clone(g))
+					out := flatPoints(project.Geometry(orb.Clone(g), f))
+					if len(out) != len(in) {
+						ok = 0
+						return
+					}
+					seen := make([]bool, len(in)+2)
+					for j := range in { // every vertex mapped, in its place; every call's result used exactly once
+						k := int(out[j][1])
+						if out[j][0] != in[j][0]+1000 || k < 1 || k > len(in) || seen[k] {
+							ok = 0
+							break
+						}
+						seen[k] = true
+					}
+				})
+				if site != "" {
+					c.emit(panicEvent("project.Geometry(big)", site, e))
+					continue
+				}
+				e["ok"], e["calls"] = ok, calls
+				c.emit(e)
+			}
+		}
 		// (2) tile round trip: integer tile coordinates in [-extent, 2*extent) -> WGS84 -> tile, several layers with
 		// different extents in one Layers value
 		nt := c.pick(1500, 30000)
